@@ -342,6 +342,11 @@ type cmpOpts struct {
 	names bool // compare Arg.Name too (false: must be empty)
 }
 
+// cmpLoose: the scan ran with pointer naming, path guessing and source analysis on; the fields
+// those options legitimately fill (names, typed rendering, local/relative paths, import path,
+// location) are not compared, everything the dump itself says still is.
+var cmpLoose bool
+
 func cmpArgs(path string, want, got *stack.Args) error {
 	if want.Elided != got.Elided {
 		return fmt.Errorf("%s.Elided: want %v got %v", path, want.Elided, got.Elided)
@@ -349,7 +354,7 @@ func cmpArgs(path string, want, got *stack.Args) error {
 	if len(want.Values) != len(got.Values) {
 		return fmt.Errorf("%s: want %d values got %d (%s)", path, len(want.Values), len(got.Values), got.String())
 	}
-	if len(got.Processed) != 0 {
+	if len(got.Processed) != 0 && !cmpLoose {
 		return fmt.Errorf("%s.Processed: want none got %q", path, got.Processed)
 	}
 	for i := range want.Values {
@@ -376,7 +381,7 @@ func cmpArgs(path string, want, got *stack.Args) error {
 		if w.IsOffsetTooLarge != g.IsOffsetTooLarge {
 			return fmt.Errorf("%s.IsOffsetTooLarge: want %v got %v", p, w.IsOffsetTooLarge, g.IsOffsetTooLarge)
 		}
-		if g.Name != "" {
+		if g.Name != "" && !cmpLoose {
 			return fmt.Errorf("%s.Name: want none got %q", p, g.Name)
 		}
 	}
@@ -394,9 +399,9 @@ func cmpCall(path string, want, got *stack.Call, creator bool) error {
 		{"Func.Name", want.Func.Name, got.Func.Name},
 		{"Func.Complete", want.Func.Complete, got.Func.Complete},
 		{"RemoteSrcPath", want.RemoteSrcPath, got.RemoteSrcPath},
-		{"ImportPath", want.ImportPath, got.ImportPath},
-		{"LocalSrcPath", "", got.LocalSrcPath},
-		{"RelSrcPath", "", got.RelSrcPath},
+	}
+	if !cmpLoose {
+		fields = append(fields, sf{"ImportPath", want.ImportPath, got.ImportPath}, sf{"LocalSrcPath", "", got.LocalSrcPath}, sf{"RelSrcPath", "", got.RelSrcPath})
 	}
 	if strings.Count(want.RemoteSrcPath, "/") >= 1 {
 		fields = append(fields, sf{"SrcName", want.SrcName, got.SrcName})
